@@ -153,6 +153,8 @@ class Session:
                     return True
                 text, ver = text2, ver2
                 continue
+            if res[1] == "parse" and re.fullmatch(r"(frame_dig|frame_bury) -?\d+", str(res[3])):
+                res = ("bad", "imm-range", res[2], "%s (immediate outside the signed 8-bit range; AVM/Parse.v refuses the line)" % res[3])
             self.bump(self.kinds, res[1])
             self.violations += 1
             vk = (res[1], str(res[3]).split(" ")[0], case.get("family"))
@@ -359,6 +361,37 @@ def run_job(arg):
             "coverage": ck.coverage, "samples": ck.samples}
 
 
+def fam_frames(ses, pt, rng, thorough, shard=0, nshards=1):
+    """subroutines with k ABI locals around the 128-cell frame limit, versions 8..10, frame pointers default / True."""
+    cases = G.frames_cases()
+    for idx, (kd, k, na) in enumerate(cases):
+        if idx % nshards != shard:
+            continue
+        for version in (8, 9, 10):
+            for fp in (None, True):
+                if not thorough and k == 200 and (version, fp) not in ((8, None), (10, True)):
+                    continue
+                ses.compile_and_check(lambda: G.gen_frames_program(pt, kd, k, na), version, True,
+                                      {"family": "frames", "name": "frames:%s:%d:%d" % (kd, k, na), "key": [kd, k, na],
+                                       "scratch_slots": None, "frame_pointers": fp}, optimize=optimize_of(pt, None, fp))
+
+
+def fam_tails(ses, pt, rng, thorough, shard=0, nshards=1):
+    """routine tails: every leave/stay pattern of If / ElseIf / Cond / nested tails, in subroutines and in main."""
+    cases = G.tails_cases()
+    for idx, (ti, mask, where, follow) in enumerate(cases):
+        if idx % nshards != shard:
+            continue
+        for version in (G.VERSIONS[2:] if thorough else [4, 5, 6, 8, 9, 10][idx % 2::2] + [[7, 8][idx % 2]]):
+            app = (idx + version) % 3 != 0
+            for fp in ((None, False) if version >= 8 else (None,)):
+                ss = [None, True, False][(idx + version) % 3]
+                ses.compile_and_check(lambda: G.gen_tail_program(pt, ti, mask, where, follow, app), version, app,
+                                      {"family": "tails", "name": "tails:%d:%d:%s:%s" % (ti, mask, where, follow),
+                                       "key": [ti, mask, where, follow], "scratch_slots": ss, "frame_pointers": fp},
+                                      optimize=optimize_of(pt, ss, fp))
+
+
 def build_case(pt, case, version, app):
     """Rebuild the program of a replay file. Returns a thunk or raises."""
     fam, key = case["family"], case.get("key")
@@ -374,6 +407,10 @@ def build_case(pt, case, version, app):
         return lambda: G.gen_names_program(pt, key, version, True, newline=True)[0]
     if fam == "consts":
         return lambda: G.gen_consts_program(pt, key[0], key[1])
+    if fam == "tails":
+        return lambda: G.gen_tail_program(pt, key[0], key[1], key[2], key[3], app)
+    if fam == "frames":
+        return lambda: G.gen_frames_program(pt, key[0], key[1], key[2])
     if fam == "corpus":
         recipe = eval(case["recipe"])
         return lambda: Builder(pt).build(recipe)
@@ -439,10 +476,12 @@ def main(argv):
     model.close()
     # families run as parallel jobs (own interpreter state, own checker process each); results are merged here
     jobs = [("sweep", k, 3) for k in range(3)] + [("consts", 0, 1), ("names", 0, 1), ("router", k, 2) if False else ("router", 0, 1)] + \
-           [("subs", k, 5) for k in range(5)] + [("corpus", k, 3) for k in range(3)]
+           [("subs", k, 5) for k in range(5)] + [("corpus", k, 3) for k in range(3)] + [("frames", k, 2) for k in range(2)] + \
+           [("tails", k, 3) for k in range(3)]
     if thorough:
         jobs = [("sweep", k, 3) for k in range(3)] + [("consts", 0, 1), ("names", 0, 1)] + [("router", k, 2) for k in range(2)] + \
-               [("subs", k, 8) for k in range(8)] + [("corpus", k, 4) for k in range(4)]
+               [("subs", k, 8) for k in range(8)] + [("corpus", k, 4) for k in range(4)] + [("frames", k, 3) for k in range(3)] + \
+               [("tails", k, 4) for k in range(4)]
     import multiprocessing as mp
     from concurrent.futures import ProcessPoolExecutor
     t1 = time.time()
@@ -501,7 +540,7 @@ def main(argv):
         rule="every evaluation is one REAL compiler output (compileTeal / Router.compile_program) decided by the extracted, proved-sound legal_check; "
              "inputs: (a) every op family / field / immediate shape of the catalogue and every Op via MultiValue x versions 2..10 x {Application, Signature} "
              "x option rotation, (b) constant-block sizes around 256, (c) odd and colliding subroutine names, (d) seeded random Routers, "
-             "(e) seeded random programs with 0..40 subroutines (recursive, by-reference, ABI), (f) the shared main-routine corpus (exhaustive small shapes + seeded random); "
+             "(e) seeded random programs with 0..40 subroutines (recursive, by-reference, ABI), (e2) subroutines (plain / ABI void / ABI output) with 126..129 and 200 ABI locals at v8..10 with frame pointers, (f) the shared main-routine corpus (exhaustive small shapes + seeded random); "
              "distinct = (family, version, mode, emitted text); non-trivial = the compiler emitted TEAL (rejections and crashes are counted but not distinct)",
         trusted_base=[
             "AVM/Langspec.v: hand-written langspec (op versions, modes, immediates, field tables, itxn_field settability, back-branch rule) from the AVM specification; rows marked Unknown are listed in langspec_unknown_rows",
